@@ -95,5 +95,13 @@ History of misses (each led to an extension, after which the change is caught):
   same seed) lost S_C14b, which had been found by random generation only -> model deviation ScopedCleanupStop = FALSE (the
   cleanup on_stop after an on_run error is outside the actor scope); its counterexample is replayed into the code. Detection
   that rests on a deviation's counterexample does not depend on what the random generator happens to draw.
+* Round 7 (6 changes: C05 C12 C16 C18 C19 C20). Caught at once: S_C05e, S_C12e. Extensions: S_C16e (the erased *_with_timeout
+  forwarders arm their timer when the method is called, not when the future is first polled) -> client futures that are
+  created now and polled later (`create` command, OpArm event; the harness calls the API method at creation, as user code
+  does); S_C18e (with `tracing`, the stop request's ActorRef is dropped before on_stop: upgrade() fails inside a graceful
+  on_stop once all other handles are gone) -> every path of a tiny configuration with weak handles upgraded at every point of a
+  graceful stop, compared between the default and the feature builds (c18w); S_C19e (a bare `Result` path without generic
+  arguments is no longer recognised) -> `bare_result` spelling in MacroTable.tla; S_C20e (whole seconds converted with the
+  wrong factor) -> a handler outcome that holds its thread for 1.1 s (`veryslow`).
 """)
 print(len(rows), "seeds")
